@@ -5,6 +5,7 @@ mod fmtrun;
 mod lexrun;
 mod literal;
 mod purity;
+mod sqlast;
 mod render;
 mod rqjson;
 mod run;
@@ -31,6 +32,8 @@ fn main() {
         "errors" => errors::main(&args[1..]),
         "totality" => totality::main(&args[1..]),
         "purity" => purity::main(&args[1..]),
+        "sqlast" => sqlast::main(&args[1..]),
+        "sqlparse" => sqlast::main_parse(&args[1..]),
         "number" => literal::main_numbers(&args[1..]),
         "ident" => literal::main_idents(&args[1..]),
         "lexlist" => lexrun::main_list(&args[1..]),
